@@ -74,6 +74,8 @@ class Module:
                 self.classes[n.name] = ClassInfo(self, n)
             elif isinstance(n, ast.Assign) and len(n.targets) == 1 and isinstance(n.targets[0], ast.Name):
                 self.assigns[n.targets[0].id] = n.value
+            elif isinstance(n, ast.AnnAssign) and isinstance(n.target, ast.Name) and n.value is not None:
+                self.assigns[n.target.id] = n.value
 
 
 class ClassInfo:
